@@ -502,6 +502,23 @@ def check(ctx):
     # __setdefault__: plaintext default is hashed
     sd = model.method("ChallengeField", "__setdefault__")
     sdv = model.method("Config", "_set_default_value")
+    # the generic Field.__setdefault__ stores the declared default as it is: ChallengeField may hand over to it only when there is
+    # no default at all (`self.default is None`) -- an empty plaintext default ("" is falsy) still has to be hashed
+    from engine.flow import guard_atoms
+    for n in an.cfg(sd).nodes:
+        if n.kind == "call" and any(t.kind == "fn" and t.fn is not None and t.fn.name == "__setdefault__" and t.fn.cls is not None and t.fn.cls.name != "ChallengeField"
+                                    for t in an.targets(sd, n)):
+            none_only = False
+            for e, truth, _t in guard_atoms(an, sd, n):
+                e2 = expand_aliases(sd, e, _t)
+                if isinstance(e2, ast.Compare) and len(e2.ops) == 1 and isinstance(e2.comparators[0], ast.Constant) and e2.comparators[0].value is None \
+                        and isinstance(e2.left, ast.Attribute) and e2.left.attr in ("default", "_default"):
+                    if (isinstance(e2.ops[0], ast.Is) and truth) or (isinstance(e2.ops[0], ast.IsNot) and not truth):
+                        none_only = True
+            ctx.ob("default.generic-route-only-for-none", sd, n.ast, none_only,
+                   "the generic route (which stores the default unhashed) is taken only when no default is declared" if none_only else
+                   "ChallengeField.__setdefault__ hands over to the generic Field.__setdefault__ on a condition other than `default is None`: an "
+                   "empty plaintext default is stored as a plain string, not as a salted digest", node=n)
     for n in an.cfg(sd).nodes:
         if n.kind == "call" and sdv in an.callees(sd, n) and len(n.ast.args) >= 2:
             t = an.ft(sd).type_at(n, n.ast.args[1])
